@@ -103,6 +103,25 @@ def _num(x, style):
 
 
 def build(cfg):
+    """cfg['reuse']: the System is one that was used before - it was first completed with smaller diameters and other
+    densities, a PRISM object was created from it, and only then it got the values of cfg (a parameter sweep on ONE System)"""
+    if cfg.get('reuse'):
+        import warnings
+        first = dict(cfg, reuse=False, rho={t: 0.9 * float(v) for t, v in cfg['rho'].items()},
+                     diam={t: float(v) - 2.0 * cfg['dr'] for t, v in cfg['diam'].items()})
+        s = build(first)
+        with warnings.catch_warnings():
+            warnings.simplefilter('ignore')
+            s.createPRISM()
+        ns = cfg.get('num_style', 'float')
+        for t in cfg.get('assign_order', list(cfg['types'])):
+            s.density[t] = _num(cfg['rho'][t], ns)
+            s.diameter[t] = _num(cfg['diam'][t], ns)
+        return s
+    return _build(cfg)
+
+
+def _build(cfg):
     import pyPRISM
     T = list(cfg['types'])
     ns = cfg.get('num_style', 'float')
